@@ -9,6 +9,7 @@ after every transition (and the open-socket bound inside it).
 from __future__ import annotations
 
 import errno
+import io
 import socket
 import ssl
 
@@ -146,6 +147,13 @@ def mk_retries(name):
     raise KeyError(name)
 
 
+class _BadSeek(io.BytesIO):
+    """tell() works, seek() does not: the position is recorded, rewinding fails"""
+
+    def seek(self, *a):
+        raise OSError("unseekable")
+
+
 class World:
     def __init__(self, cfg):
         self.cfg = cfg
@@ -189,6 +197,10 @@ class World:
         max_out = self.cfg["maxsize"] + (0 if self.cfg["block"] else 1)
         if len(self.out) < max_out or self.cfg["block"]:
             o += [("req", "GET"), ("req", "POST")]
+            if self.cfg["retries"] == "R2":
+                # a body that cannot be rewound: any second attempt (retry, redirect) ends in UnrewindableBodyError,
+                # raised at the top of the nested urlopen() - before a connection is taken
+                o += [("req", "PUTF")]
         # a preloaded response kept by release_conn=False has no body left: partial reads and
         # stream() are no-ops on it and are not ways of disposing of it
         kinds = ("read", "release", "drain", "close") if self.cfg["preload"] else ("read", "read3", "release", "drain", "close", "stream")
@@ -206,8 +218,8 @@ class World:
         with self.net:
             try:
                 if k == "req":
-                    body = b"x" if op[1] == "POST" else None
-                    r = self.pool.urlopen(op[1], self.url, body=body, preload_content=self.cfg["preload"],
+                    body = b"x" if op[1] == "POST" else (_BadSeek(b"xy") if op[1] == "PUTF" else None)
+                    r = self.pool.urlopen("PUT" if op[1] == "PUTF" else op[1], self.url, body=body, preload_content=self.cfg["preload"],
                                           release_conn=self.cfg["release"],
                                           pool_timeout=0 if self.cfg["block"] else None, **self.urlopen_kw)
                     res = ("resp", r.status)
